@@ -37,6 +37,7 @@ BASE = A.prog(
     + (
         A.gate("prepare_all"),
         A.gate("m", A.item("q", 0), "x"),
+        A.gate("m", "c", 2.0),
         A.loop("n", A.seq(A.gate("X", A.item("a", 1)), A.par(A.gate("H", "c"), A.gate("m2", "a")))),
         A.gate("measure_all"),
         A.sub("n", A.gate("CX", "c", A.item("a", 0)), A.loop(2, A.seq(A.gate("m", "c", 0.25)))),
@@ -49,6 +50,27 @@ CALLS = (
     "expand_subcircuits", "unit_timing", "used_qubits", "generate", "run", "parse_outputs",
     "stretched_gates", "add_idle_gates",
 )
+
+
+BASE_NB = A.prog(
+    HEADER,
+    MACROS
+    + (
+        A.sub("n", A.gate("CX", "c", A.item("a", 0)), A.loop(2, A.seq(A.gate("m", "c", 0.25)))),
+        A.loop("n", A.seq(A.sub(None, A.gate("X", A.item("q", "k"))))),
+        A.gate("m", A.item("q", 0), 1.0),
+    ),
+)
+
+
+def table(mode):
+    """'full': the fixture table; 'nb': the same without prepare_all / measure_all (the caller's table
+    does not know the bounding gates of subcircuit blocks)"""
+    t = gates.native_gates()
+    if mode == "nb":
+        t.pop("prepare_all")
+        t.pop("measure_all")
+    return t
 
 
 def programs(tier):
@@ -190,25 +212,33 @@ class C11(Check):
         for p in programs(tier):
             for first in CALLS:
                 yield (p, d, (first,))
+        for first in CALLS:
+            yield (BASE_NB, d, (first,), "nb")
 
     def show(self, case):
-        p, d, h = case
-        return {"text": render.text(p), "history": list(h), "depth": d}
+        p, d, h = case[:3]
+        out = {"text": render.text(p), "history": list(h), "depth": d}
+        if len(case) > 3:
+            out["natives"] = case[3]
+        return out
 
     def shrink(self, case):
-        p, d, h = case
+        p, d, h = case[:3]
+        rest = case[3:]
         for i in range(len(h)):
             if len(h) > 1:
                 nh = h[:i] + h[i + 1:]
-                yield (p, len(nh), nh)
+                yield (p, len(nh), nh) + rest
         for cand in A.shrink_program(p):
             if U.valid(cand, NATIVES):
-                yield (cand, d, h)
+                yield (cand, d, h) + rest
 
     def run_case(self, case, ctx):
-        p, depth, prefix = case
+        p, depth, prefix = case[:3]
+        mode = case[3] if len(case) > 3 else "full"
+        rest = case[3:]
         text = render.text(p)
-        ng = gates.native_gates()
+        ng = table(mode)
         c = impl.parse(text, inject_pulses=ng)
         root = (c, ng)
         snap0 = snapshot(root)
@@ -218,7 +248,7 @@ class C11(Check):
 
         def baseline(name):
             if name not in base:
-                fresh_ng = gates.native_gates()
+                fresh_ng = table(mode)
                 fresh = impl.parse(text, inject_pulses=fresh_ng)
                 base[name] = do_call(name, fresh, fresh_ng)
             return base[name]
@@ -232,12 +262,12 @@ class C11(Check):
             ok = True
             if got != want:
                 ctx.fail("result-differs", "%s after %s: on the shared object %r\non a fresh copy %r" % (
-                    name, list(hist[:-1]), _short(got), _short(want)), case=(p, len(hist), hist))
+                    name, list(hist[:-1]), _short(got), _short(want)), case=(p, len(hist), hist) + rest)
                 ok = False
             snap = snapshot(root)
             if snap != snap0:
                 ctx.fail("input-modified", "%s (history %s) changed the circuit or the caller's gate table: %s" % (
-                    name, list(hist), _first_diff(snap0, snap)), case=(p, len(hist), hist))
+                    name, list(hist), _first_diff(snap0, snap)), case=(p, len(hist), hist) + rest)
                 ok = False
             ctx.outcome(got[0])
             return ok
